@@ -358,3 +358,49 @@ def block_paths(stmts, like=None, max_paths=400):
     or return); see return_paths"""
     return return_paths(_Block(stmts, like), max_paths=max_paths,
                         inline=False)
+
+
+_ENSURES = {}
+
+
+def ensures(func):
+    """[(expr over the parameters, polarity)] that hold whenever `func`
+    returns normally: the facts common to all its returning paths, with
+    locals replaced by their definitions, restricted to facts that mention
+    only parameters (that the function does not re-bind) and constants.
+    A function like
+
+        def _check(node, name):
+            if node[0] == name:
+                return
+            raise Error(...)
+
+    ensures (node[0] == name, True)."""
+    key = id(func.node)
+    if key in _ENSURES:
+        return _ENSURES[key]
+    _ENSURES[key] = []
+    from .model import norm
+    paths = return_paths(func, inline=False)
+    if not paths:
+        return []
+    params = {p for p in func.params if p not in ('self', 'cls')}
+    rebound = {x.id for x in ast.walk(func.node)
+               if isinstance(x, ast.Name) and
+               isinstance(x.ctx, (ast.Store, ast.Del))}
+    per_path = []
+    for pth in paths:
+        fs = {}
+        for t, pol in pth.facts:
+            r = pth.resolve(t)
+            names = {x.id for x in ast.walk(r) if isinstance(x, ast.Name)}
+            if names and names <= params - rebound and not any(
+                    isinstance(x, ast.Call) for x in ast.walk(r)):
+                fs[(norm(r, 200), pol)] = (r, pol)
+        per_path.append(fs)
+    common = set(per_path[0])
+    for fs in per_path[1:]:
+        common &= set(fs)
+    out = [per_path[0][k] for k in sorted(common)]
+    _ENSURES[key] = out
+    return out
